@@ -254,6 +254,7 @@ type CallReq struct {
 	CalleeDesc string
 	Args       map[int]string // argument index -> regexp
 	Ctx        []string
+	CtxFn      func(desc string) bool // further legitimate contexts, decided by the rule
 	Clause     string
 }
 
@@ -283,7 +284,7 @@ func CheckCallReq(c *Ctx, rule string, r CallReq, calls []CallFact) {
 		var bad []string
 		okv := ctxAllowed(cf.Ctx, ctxRes, cf.Args, true)
 		for i, cx := range cf.Ctx {
-			if !okv[i] {
+			if !okv[i] && !(r.CtxFn != nil && r.CtxFn(cx)) {
 				bad = append(bad, cx)
 			}
 		}
